@@ -13,13 +13,14 @@ EXTENDS RegAllocInterp
 
 CONSTANTS PSet,          \* set of pressures to draw from
           QSet,          \* set of vector-register pressures (0 = no vector registers)
+          WSet,          \* set of 64-bit general register counts (0 = none); they add to the GP pressure
           Skeletons,     \* subset of {"straight","diamond","loop2","irreducible","jtab","jtabloop","callloop"}
           Hazards,       \* subset of {"plain","fixed","calls","mem"}: which instruction mix the blocks use
           BlockLen,      \* instructions per random block
           Randomized
 
-VARIABLES phase, P, Q, sk, hz, plan, prog, ms
-vars == <<phase, P, Q, sk, hz, plan, prog, ms>>
+VARIABLES phase, P, Q, W, sk, hz, plan, prog, ms
+vars == <<phase, P, Q, W, sk, hz, plan, prog, ms>>
 
 Inputs == << <<0, 0>>, <<1, 2>>, <<65535, 1>>, <<3, 65535>>, <<12345, 54321>>, <<256, 255>>, <<7, 7>>, <<40000, 2>> >>
 
@@ -36,6 +37,8 @@ FixedOps == <<"shl", "shr", "sar", "div", "idiv", "mul", "cmpxchg", "shl", "div"
 ExhOps == <<"shl", "div", "mul", "cmpxchg", "xchg", "call1", "sstx", "setcc", "mov">>      \* alphabet of the exhaustive mode
 CallOps  == <<"call1", "call2", "call1", "call2", "add", "mov", "sub", "shl", "div", "xor">>
 VecOps   == <<"vset", "vget", "vmov", "vxor", "vor", "vand", "vset", "vget", "vmov", "vxor">>
+WideOps  == <<"qset", "qhi", "qlo", "qmov", "qxor", "qmov32", "qsx", "qop0", "qop0", "qop0", "qset16", "qset8", "qhi", "qxor">>
+Op0s     == {"add", "sub", "xor", "or", "shl", "shr", "sar", "rol", "ror"}
 MemOps   == <<"st", "ld", "sst", "sld", "sstx", "sldx", "add", "mov", "xor", "sst", "sld", "imul">>
 OpsFor(h) == CASE h = "plain" -> PlainOps [] h = "fixed" -> PlainOps \o FixedOps \o FixedOps
                [] h = "calls" -> PlainOps \o CallOps \o FixedOps [] h = "mem" -> PlainOps \o MemOps \o MemOps \o FixedOps
@@ -43,8 +46,14 @@ OpsFor(h) == CASE h = "plain" -> PlainOps [] h = "fixed" -> PlainOps \o FixedOps
                [] OTHER -> PlainOps \o FixedOps \o CallOps \o MemOps
 
 (* the instruction(s) for a choice; operands a,b,c are distinct registers of 1..p (0 = not available) *)
-Mk(op, p, a, b, c, k, imm, cc, args, xa, xb) ==
+Mk(op, p, a, b, c, k, imm, cc, args, xa, xb, qa, qb, o0) ==
   CASE op = "movi" -> << <<"movi", a, imm>> >>
+    [] op \in {"qset", "qhi", "qlo", "qmov", "qxor", "qmov32", "qsx", "qop0", "qset16", "qset8"} /\ qa = 0 -> << <<"addi", a, imm>> >>
+    [] op = "qset" -> << <<"qset", qa, a, IF b = 0 THEN a ELSE b>> >>
+    [] op \in {"qhi", "qlo"} -> << <<op, a, qa>> >>
+    [] op \in {"qsx", "qset16", "qset8"} -> << <<op, qa, a>> >>
+    [] op = "qop0" -> << <<"qop0", o0, qa>> >>
+    [] op \in {"qmov", "qxor", "qmov32"} -> IF qb = 0 THEN << <<"qop0", o0, qa>> >> ELSE << <<op, qa, qb>> >>
     [] op \in {"vset", "vget", "vmov", "vxor", "vor", "vand"} /\ xa = 0 -> << <<"addi", a, imm>> >>
     [] op = "vset" -> << <<"vset", xa, a>> >>
     [] op = "vget" -> << <<"vget", a, xa>> >>
@@ -78,16 +87,22 @@ XChunks(q, nm, acc) == [c \in 1..((q + 15) \div 16) |->
                                       ELSE <<nm, acc, 1 + 16 * (c - 1), IF 16 * c < q THEN 16 * c ELSE q>>)]
 Prologue(p) == (IF p >= 3 THEN << I(<<"initall", 3, p>>) >> ELSE << >>)
                \o (IF Q > 0 THEN XChunks(Q, "vinitall", 0) ELSE << >>)
+               \o (IF W > 0 THEN XChunks(W, "qinitall", 0) ELSE << >>)
                \o [k \in 1..NS |-> I(<<"sst", k - 1, ((k - 1) % p) + 1>>)]
 (* the final fold is emitted in chunks of 16 registers (bounded recursion depth of FoldVal in TLC) *)
 FoldChunks(p) == [c \in 1..((p - 1 + 15) \div 16) |->
                     I(<<"fold", p + 3, 2 + 16 * (c - 1), IF 1 + 16 * c < p THEN 1 + 16 * c ELSE p>>)]
 Epilogue(p) == << I(<<"mov", p + 3, 1>>) >> \o (IF p >= 2 THEN FoldChunks(p) ELSE << >>)
                \o (IF Q > 0 THEN XChunks(Q, "vfold", p + 3) ELSE << >>)
+               \o (IF W > 0 THEN XChunks(W, "qfold", p + 3) ELSE << >>)
                \o << I(<<"st", 0, p + 3>>), I(<<"ret", p + 3>>) >>
 Body(s, p, n) ==
   CASE s = "straight" -> << <<"B", 3 * n>> >>
     [] s = "tiny" -> << <<"B", n>> >>
+    (* loop H -> B1 -> B2 -> H (B1 conditional): registers p+4..p+7 are defined before everything else, updated and read   *)
+    (* ONLY in the header H and never after the loop, so their liveness inside the body comes only from the back edge    *)
+    [] s = "hdrloop" -> << <<"B", n>>, I(<<"movi", p + 1, 3>>), I(<<"label", 1>>), <<"H", p + 4>>, <<"H", p + 5>>, <<"H", p + 6>>, <<"H", p + 7>>,
+                           <<"J", 2>>, <<"B", n>>, I(<<"label", 2>>), <<"B", n>>, I(<<"subi", p + 1, 1>>), I(<<"jcci", "ne", p + 1, 0, 1>>), <<"B", n>> >>
     [] s = "diamond" -> << <<"B", n>>, <<"J", 1>>, <<"B", n>>, I(<<"jmp", 2>>), I(<<"label", 1>>), <<"B", n>>, I(<<"label", 2>>), <<"B", n>> >>
     [] s = "loop2" -> << <<"B", n>>, I(<<"movi", p + 1, 2>>), I(<<"label", 1>>), <<"B", n>>, I(<<"movi", p + 2, 3>>), I(<<"label", 2>>),
                          <<"B", n>>, I(<<"subi", p + 2, 1>>), I(<<"jcci", "ne", p + 2, 0, 2>>), <<"B", n>>,
@@ -102,10 +117,11 @@ Body(s, p, n) ==
     [] s = "nested" -> << <<"B", n>>, <<"J", 1>>, <<"B", n>>, <<"J", 2>>, <<"B", n>>, I(<<"label", 2>>), <<"B", n>>, I(<<"jmp", 3>>), I(<<"label", 1>>),
                           I(<<"movi", p + 1, 2>>), I(<<"label", 4>>), <<"B", n>>, <<"J", 5>>, <<"B", n>>, I(<<"label", 5>>),
                           I(<<"subi", p + 1, 1>>), I(<<"jcci", "ne", p + 1, 0, 4>>), I(<<"label", 3>>), <<"B", n>> >>
-PlanFor(s, p, n) == Prologue(p) \o Body(s, p, n) \o Epilogue(p)
+InvInit(s, p) == IF s = "hdrloop" THEN << I(<<"movi", p + 4, 4660>>), I(<<"movi", p + 5, 255>>), I(<<"movi", p + 6, 32768>>), I(<<"movi", p + 7, 3>>) >> ELSE << >>
+PlanFor(s, p, n) == InvInit(s, p) \o Prologue(p) \o Body(s, p, n) \o Epilogue(p)
 
 Init == /\ phase = "gen"
-        /\ P \in PSet /\ Q \in QSet /\ sk \in Skeletons /\ hz \in Hazards
+        /\ P \in PSet /\ Q \in QSet /\ W \in WSet /\ sk \in Skeletons /\ hz \in Hazards
         /\ plan = PlanFor(sk, P, BlockLen)
         /\ prog = <<>>
         /\ ms = <<>>
@@ -116,35 +132,40 @@ GenBlockEnd == /\ plan # <<>> /\ Head(plan)[1] = "B" /\ Head(plan)[2] = 0
                /\ plan' = Tail(plan) /\ UNCHANGED prog
 GenBlock ==
   /\ plan # <<>> /\ Head(plan)[1] = "B" /\ Head(plan)[2] > 0
-  /\ LET ops == OpsFor(hz) \o (IF Q > 0 THEN VecOps \o VecOps ELSE <<>>) IN
+  /\ LET ops == OpsFor(hz) \o (IF Q > 0 THEN VecOps \o VecOps ELSE <<>>) \o (IF W > 0 THEN WideOps \o WideOps \o WideOps ELSE <<>>) IN
      \E oi \in Ch(1..Len(ops)) : \E a \in Ch(1..P) : \E b \in Ch((1..P) \ {a}) : \E c \in Ch((1..P) \ {a, b}) :
      \E k \in Ch1(0..(NS - 1)) : \E imm \in Ch1(Imms) : \E cc \in Ch1(Conds) : \E xa \in Ch(1..Q) : \E xb \in Ch((1..Q) \ {xa}) :
+     \E qa \in Ch(1..W) : \E qb \in Ch((1..W) \ {qa}) : \E o0 \in Ch1(Op0s) :
        LET args == IF Randomized THEN [j \in 1..8 |-> RandomElement(1..P)]
                    ELSE <<a, IF b = 0 THEN a ELSE b, IF c = 0 THEN a ELSE c, a, a, IF b = 0 THEN a ELSE b, IF c = 0 THEN a ELSE c, a>>
-       IN prog' = prog \o Mk(ops[oi], P, a, b, c, k, imm, cc, args, xa, xb)
+       IN prog' = prog \o Mk(ops[oi], P, a, b, c, k, imm, cc, args, xa, xb, qa, qb, o0)
   /\ plan' = <<[Head(plan) EXCEPT ![2] = @ - 1]>> \o Tail(plan)
 GenJump == /\ plan # <<>> /\ Head(plan)[1] = "J"
            /\ \E cc \in Ch1(Conds) : \E a \in Ch(1..P) : \E b \in Ch(1..P) :
                 prog' = Append(prog, <<"jcc", cc, a, b, Head(plan)[2]>>)
            /\ plan' = Tail(plan)
+GenHdr == /\ plan # <<>> /\ Head(plan)[1] = "H"
+          /\ \E a \in Ch(1..P) : \E o \in Ch1({"add", "xor", "sub"}) : \E imm \in Ch1({1, 3, 255}) :
+               prog' = prog \o << <<"addi", Head(plan)[2], imm>>, <<o, a, Head(plan)[2]>> >>       \* loop-carried, header-only
+          /\ plan' = Tail(plan)
 GenTable == /\ plan # <<>> /\ Head(plan)[1] = "T"
             /\ \E a \in Ch(1..P) : prog' = Append(prog, <<"jtab", a, Head(plan)[2]>>)
             /\ plan' = Tail(plan)
-Gen == /\ phase = "gen" /\ (GenLiteral \/ GenBlockEnd \/ GenBlock \/ GenJump \/ GenTable)
-       /\ UNCHANGED <<phase, P, Q, sk, hz, ms>>
+Gen == /\ phase = "gen" /\ (GenLiteral \/ GenBlockEnd \/ GenBlock \/ GenJump \/ GenTable \/ GenHdr)
+       /\ UNCHANGED <<phase, P, Q, W, sk, hz, ms>>
 
 Start == /\ phase = "gen" /\ plan = <<>>
          /\ phase' = "run"
-         /\ ms' = [j \in 1..Len(Inputs) |-> InitMachineX(P + 3, Q, Inputs[j])]
-         /\ UNCHANGED <<P, Q, sk, hz, plan, prog>>
+         /\ ms' = [j \in 1..Len(Inputs) |-> InitMachineW(P + 7, Q, W, Inputs[j])]
+         /\ UNCHANGED <<P, Q, W, sk, hz, plan, prog>>
 
 (* THE INTERPRETER: all machines (one per input) advance by one instruction *)
 Interp == /\ phase = "run" /\ ~(\A j \in 1..Len(ms) : ms[j].halted)
           /\ ms' = [j \in 1..Len(ms) |-> StepM(prog, ms[j])]
-          /\ UNCHANGED <<phase, P, Q, sk, hz, plan, prog>>
+          /\ UNCHANGED <<phase, P, Q, W, sk, hz, plan, prog>>
 Finish == /\ phase = "run" /\ \A j \in 1..Len(ms) : ms[j].halted
           /\ phase' = "done"
-          /\ UNCHANGED <<P, Q, sk, hz, plan, prog, ms>>
+          /\ UNCHANGED <<P, Q, W, sk, hz, plan, prog, ms>>
 
 Next == Gen \/ Start \/ Interp \/ Finish
 Spec == Init /\ [][Next]_vars
@@ -152,5 +173,5 @@ Spec == Init /\ [][Next]_vars
 (* the generator only produces well-defined programs (checked, not assumed) *)
 WellDefined == phase \in {"run", "done"} => \A j \in 1..Len(ms) : ~ms[j].bad
 Export == phase = "done" =>
-            PrintT(<<"PROG", <<sk, P, hz, Q>>, prog, Inputs, [j \in 1..Len(ms) |-> Result(ms[j])]>>)
+            PrintT(<<"PROG", <<sk, P, hz, Q, W>>, prog, Inputs, [j \in 1..Len(ms) |-> Result(ms[j])]>>)
 =============================================================================
